@@ -1430,7 +1430,7 @@ class Request:
         """
         self.code = code
         if message is not None:
-            self.code_message = message
+            self.code_message = _sanitizeLinearWhitespace(message)
         else:
             self.code_message = RESPONSES.get(code, b"Unknown Status")
 
